@@ -23,6 +23,14 @@ def pairs(tier, decpre, decpre2):
         ("dec+dec-same-stream", "dec:" + decpre, "dec:" + decpre),
         ("enc+dec", E0, "dec:" + decpre),
     ]
+    # one pair per configuration dimension that process-wide lazily built state could be keyed by (bit depth, preset class, kernel set,
+    # resolution); ':light' pairs run the 16 block-structured interleavings (each instance's calls in one or two blocks, strict alternation)
+    E1 = "enc:w=64,h=64,n=3,enable_tpl_la=0,qp=38"
+    P += [("enc+enc-8bit-10bit-notpl:light", E1, E1 + ",encoder_bit_depth=10"),
+          ("enc+enc-preset8-preset5:light", E0, "enc:w=64,h=64,n=3,enc_mode=5"),
+          ("enc+enc-c-only-kernels:light", E0, "enc:w=64,h=64,n=3,use_cpu_flags=0"),
+          ("enc+enc-resolution:light", E0, "enc:w=144,h=112,n=3"),
+          ("enc+enc-vbr-8bit-10bit:light", "enc:w=64,h=64,n=3,rate_control_mode=1,target_bit_rate=100000", "enc:w=64,h=64,n=3,rate_control_mode=1,target_bit_rate=100000,encoder_bit_depth=10")]
     if tier == "thorough":
         P += [("enc+enc-identical", E0, E0), ("enc+enc-10bit", E0, "enc:w=64,h=64,n=3,encoder_bit_depth=10"),
               ("enc+enc-c-only-kernels", E0, "enc:w=64,h=64,n=3,use_cpu_flags=0"),
@@ -31,6 +39,14 @@ def pairs(tier, decpre, decpre2):
               ("dec+dec-different-streams", "dec:" + decpre, "dec:" + decpre2),
               ("dec+dec-threads3", "dec:" + decpre, "dec:" + decpre2 + ",threads=3")]
     return P
+
+
+def light_scripts():
+    out = {"A" * 7 + "B" * 7, "B" * 7 + "A" * 7, "AB" * 7, "BA" * 7}
+    for k in range(1, 7):
+        out.add("A" * k + "B" * 7 + "A" * (7 - k))
+        out.add("B" * k + "A" * 7 + "B" * (7 - k))
+    return sorted(out)
 
 
 def scripts():
@@ -43,14 +59,15 @@ def scripts():
     return out
 
 
-def run_script(item):
+def run_script(item, timeout=120):
     name, a, b, script = item
     en = dict(os.environ)
     en["SVT_LOG"] = "-2"
     try:
-        p = subprocess.run([_exe, "script=" + script, "a=" + a, "b=" + b], stdout=subprocess.PIPE, stderr=subprocess.PIPE, env=en, timeout=120)
+        p = subprocess.run([_exe, "script=" + script, "a=" + a, "b=" + b], stdout=subprocess.PIPE, stderr=subprocess.PIPE, env=en, timeout=timeout)
     except subprocess.TimeoutExpired:
-        return {"timeout": True}
+        # under the scheduler a hang is a detected deadlock; a wall-clock timeout gets one more run with a much longer limit
+        return run_script(item, 900) if timeout == 120 else {"timeout": True}
     try:
         d = json.loads(p.stdout.decode("latin1").strip().split("\n")[-1])
         if isinstance(d, dict):
@@ -125,6 +142,7 @@ def run(tier):
     states = trans = execs = 0
     exhaustive = True
     plist = pairs(tier, d1, d2)
+    plist.sort(key=lambda p: 0 if p[0].endswith(":light") else 1)
     for pi, (name, a, b) in enumerate(plist):
         left = ck.time_left() - 20
         if left < 15:
@@ -136,7 +154,8 @@ def run(tier):
             ck.violation("C17:solo-run-fails@" + name, "%s / %s" % (str(solo_a)[:150], str(solo_b)[:150]), {"pair": name, "a": a, "b": b, "script": "AAAAAAA"})
             continue
         ra, rb = obs(solo_a["insts"][0]), obs(solo_b["insts"][1])
-        items = [(name, a, b, s) for s in allscripts]
+        scr = allscripts if not name.endswith(":light") else light_scripts()
+        items = [(name, a, b, s) for s in scr]
         res, complete = vlib.pmap_deadline(run_script, items, ck.t0 + (ck.budget - 20) * (pi + 1) / len(plist))
         if not complete:
             exhaustive = False
@@ -164,7 +183,7 @@ def run(tier):
             if k:
                 ck.violation("C17:%s@%s" % (k, name), msg, rep)
         states += len(res)
-        per.append({"pair": name, "a": a, "b": b, "interleavings_executed": len(res), "of": len(allscripts), "outcomes": {str(k): v for k, v in kinds.items()}})
+        per.append({"pair": name, "a": a, "b": b, "interleavings_executed": len(res), "of": len(scr), "outcomes": {str(k): v for k, v in kinds.items()}})
         samples.append({"pair": name, "script": allscripts[len(allscripts) // 2]})
     tsan = []
     if ck.time_left() > 60:
